@@ -1,4 +1,5 @@
 import VyxalModel.Lemmas.LazyList
+import VyxalModel.Lemmas.FwdSlice
 /-!
 # C13 — a finite lazy list is indistinguishable from the list it enumerates
 
@@ -8,22 +9,21 @@ list's answer, keeps the invariant and never changes the denoted sequence; `hist
 to **all** source lists and **all** observation histories by induction (the "≤ 4 observations on lists
 of length ≤ 3" of the property text is only the size of the correspondence run).
 
-Partial in one named way: for the two *forward-loop* slice branches (`start ≥ 0`, `step > 0`) the
-answer equality is not yet proved (the state invariant is); every other observation — indexing incl.
-negative and wrap-around, slices counted from the end, length, iteration, truthiness, membership,
-equality, counting, reversal, copying, indexing a copy — is.
+Every observation is covered: indexing incl. negative and wrap-around, slices of both kinds — the ones
+counted from the end, which generate everything first, and the *forward-loop* ones (`start ≥ 0`,
+`stop ≥ 0` or absent, `step > 0`), which pull only as far as they need (`Lemmas/FwdSlice.lean`: the loop
+collects `fwd`, and `fwd` is Python's `slice.indices` walk) —, length, iteration, truthiness, membership,
+equality, counting, reversal, copying, indexing a copy.  The only side condition is that a slice step is
+not 0: `__getitem__` replaces a step of 0 or `None` by 1 before anything else (`or 1`), so no other step
+reaches the code that is modelled.
 -/
 namespace C13
 open LLM
 
-/-- forward slices: the loop branches of `__getitem__(slice)` -/
-def Obs.isForwardSlice : Obs → Bool
-  | .slice start stop step =>
-    let st := start.getD 0
-    match stop with
-    | none => !(decide (step < 0) || decide (st < 0))
-    | some e => !(decide (step < 0) || decide (e < 0) || decide (st < 0))
-  | _ => false
+/-- a slice observation carries the step *after* `step or 1`: never 0 -/
+def _root_.LLM.Obs.stepOK : Obs → Prop
+  | .slice _ _ step => step ≠ 0
+  | _ => True
 
 theorem sliceLoop_inv : ∀ (n : Nat) (l : LL), l.Inv → ∀ (i : Int) (stop : Option Int) (step : Int) (acc : List Int),
     (l.sliceLoop n i stop step acc).2.Inv ∧ (l.sliceLoop n i stop step acc).2.src = l.src
@@ -83,30 +83,33 @@ theorem observe_inv (l : LL) (h : l.Inv) (o : Obs) : (l.observe o).2.Inv ∧ (l.
   | nop => exact ⟨h, rfl⟩
 
 /-- **one observation**: the lazy list answers what the list answers -/
-theorem step_correct (l : LL) (h : l.Inv) (o : Obs) (ho : Obs.isForwardSlice o = false) :
+theorem step_correct (l : LL) (h : l.Inv) (o : Obs) (ho : o.stepOK) :
     (l.observe o).1 = oracle l.src o := by
   obtain ⟨fi, fs, fg, _⟩ := forceAll_spec l h
   cases o with
   | getItem i => exact (getItem_spec l h i).1
   | slice a b c =>
-    simp only [Obs.isForwardSlice] at ho
+    have hc0 : c ≠ 0 := ho
     simp only [LL.observe, LL.getSlice, oracle]
     cases b with
     | none =>
-      simp only at ho ⊢
-      have hc : c < 0 ∨ a.getD 0 < 0 := by
-        simp only [Bool.not_eq_false', Bool.or_eq_true, decide_eq_true_eq] at ho; exact ho
-      simp only [hc, if_true, fg]
+      simp only
+      by_cases hc : c < 0 ∨ a.getD 0 < 0
+      · simp only [hc, if_true, fg]
+      · simp only [hc, if_false]
+        have hs : 0 < c := by omega
+        rw [sliceLoop_fwd _ l h _ _ _ _ (by omega) (by omega)]
+        simp only [List.reverse_nil, List.nil_append]
+        rw [fwd_pySlice l.src a none c hs (by omega) (by intro e he; simp at he)]
     | some e =>
-      simp only at ho ⊢
-      have hc : c < 0 ∨ e < 0 ∨ a.getD 0 < 0 := by
-        have : (c < 0 ∨ e < 0) ∨ a.getD 0 < 0 := by
-          simp only [Bool.not_eq_false', Bool.or_eq_true, decide_eq_true_eq] at ho; exact ho
-        rcases this with (h1 | h1) | h1
-        · exact Or.inl h1
-        · exact Or.inr (Or.inl h1)
-        · exact Or.inr (Or.inr h1)
-      simp only [hc, if_true, fg]
+      simp only
+      by_cases hc : c < 0 ∨ e < 0 ∨ a.getD 0 < 0
+      · simp only [hc, if_true, fg]
+      · simp only [hc, if_false]
+        have hs : 0 < c := by omega
+        rw [sliceLoop_fwd _ l h _ _ _ _ (by omega) (by omega)]
+        simp only [List.reverse_nil, List.nil_append]
+        rw [fwd_pySlice l.src a (some e) c hs (by omega) (by intro e' he; simp at he; omega)]
   | len => simp [LL.observe, oracle, fg]
   | iter => simp [LL.observe, oracle, fg]
   | bool =>
@@ -132,11 +135,11 @@ theorem step_correct (l : LL) (h : l.Inv) (o : Obs) (ho : Obs.isForwardSlice o =
     rw [this]; rfl
   | nop => rfl
 
-/-- **all histories**: every answer of every observation that is not a forward slice equals the list's
-    answer, whatever was observed before (forward slices included), and the denoted sequence never changes -/
+/-- **all histories**: every answer of every observation equals the list's answer, whatever was observed before, and the
+    denoted sequence never changes -/
 theorem history_correct (src : List Int) (os : List Obs) :
     ∀ (l : LL), l.Inv → l.src = src →
-      (∀ (k : Nat) (o : Obs) (a : Ans), os[k]? = some o → (runObs l os).1[k]? = some a → Obs.isForwardSlice o = false → a = oracle src o)
+      (∀ (k : Nat) (o : Obs) (a : Ans), os[k]? = some o → (runObs l os).1[k]? = some a → o.stepOK → a = oracle src o)
       ∧ (runObs l os).2.Inv ∧ (runObs l os).2.src = src := by
   induction os with
   | nil => intro l h hs; exact ⟨by intro k o a hk; simp at hk, h, hs⟩
